@@ -421,6 +421,21 @@ def gen_dupin_scripts(tier, seed):
     return scripts
 
 
+def gen_reopened_out_scripts(tier, seed):
+    """Legacy: a second RDG_OUT_DATA request between the tunnel request and the channel request, on tunnels whose token
+    was issued to the address they come from and on tunnels that come from another one: same verdicts as without it."""
+    scripts = []
+    for n in range(3 if tier == "quick" else 12):
+        cfg = {"tokenAuth": True, "smartCard": False, "auth": "openid", "sel": ["roundrobin", "unsigned"][n % 2], "hosts": [["H1", ":", "PA"]], "verifyIp": True, "idle": 0}
+        a, b = "10.4.%d.1" % n, "10.4.%d.2" % n
+        for k, (mint, use) in enumerate([(a, b), (a, a), (b, a)]):
+            tun = {"user": "user1", "hostName": ["H1"], "hostPort": "PA", "entry": ["H1", ":", "PA"], "mintXFF": mint, "useXFF": use}
+            steps = [{"k": "hs", "cls": "valid", "caps": 2, "major": 1, "minor": 0}, {"k": "create", "cls": "valid", "cookie": "good"}, {"k": "reout"},
+                     {"k": "auth", "cls": "valid"}, {"k": "reout"}, {"k": "chan", "cls": "valid", "name": ["H1"], "port": "PA"}, {"k": "data", "cls": "valid", "n": 8}]
+            scripts.append({"id": "ro%03d%d" % (n, k), "origin": "policy:reopened-out", "cfg": cfg, "transport": "legacy", "tun": tun, "steps": steps})
+    return scripts
+
+
 def gen_cookie_carrying_scripts(tier, seed):
     """The tunnel's requests carry the session cookie of the browser that downloaded the file (legal, if unusual), and come
     from another address than the token's; between the tunnel's HTTP request and its channel request the owner's browser
